@@ -483,3 +483,19 @@ TRUSTED_BASE_COMMON = [
     "CPython semantics of the modelled statements; heapq; insertion-ordered dict",
     "embedding: finite doubles under < and == are order-isomorphic to their rational values; correspondence compared exactly on the dyadic stream only",
 ]
+
+
+def resolved_entry(cfg, name):
+    """a configuration entry with its `extends` chain resolved as the property says: own keys first, then the nearest ancestor's
+    (the reference the harness and the monitors read event settings through)"""
+    d = dict(cfg[name])
+    seen = set()
+    while "extends" in d:
+        parent = d.pop("extends")
+        if parent in seen:
+            raise ValueError("cyclic extends")
+        seen.add(parent)
+        merged = dict(cfg[parent])
+        merged.update(d)
+        d = merged
+    return d
